@@ -605,16 +605,11 @@ func (p *Parser) constAssertDecl() (*ConstAssertDecl, *ParseError) {
 		return nil, &ParseError{Message: "expected 'const_assert'", Token: p.peek()}
 	}
 
-	// const_assert can optionally have parentheses: const_assert(expr) or const_assert expr
-	hasParen := p.match(TokenLeftParen)
+	// const_assert takes an expression; a parenthesised one is just a primary expression
+	// that may be followed by operators: const_assert (N + 1) > 2;
 	cond, err := p.expression()
 	if err != nil {
 		return nil, err
-	}
-	if hasParen {
-		if err := p.expectErr(TokenRightParen); err != nil {
-			return nil, err
-		}
 	}
 
 	if err := p.expectSemicolon(); err != nil {
@@ -701,7 +696,7 @@ func (p *Parser) typeSpec() (Type, *ParseError) {
 			}
 		}
 
-		if err := p.expectErr(TokenGreater); err != nil {
+		if err := p.expectTemplateClose(); err != nil {
 			return nil, err
 		}
 
@@ -742,7 +737,7 @@ func (p *Parser) typeSpec() (Type, *ParseError) {
 			}
 		}
 
-		if err := p.expectErr(TokenGreater); err != nil {
+		if err := p.expectTemplateClose(); err != nil {
 			return nil, err
 		}
 
@@ -823,6 +818,9 @@ func (p *Parser) block() (*BlockStmt, *ParseError) {
 // statement parses a statement.
 func (p *Parser) statement() (Stmt, *ParseError) {
 	switch {
+	case p.check(TokenSemicolon) && !p.inForHeader:
+		p.advance() // empty statement
+		return nil, nil
 	case p.check(TokenReturn):
 		return p.returnStmt()
 	case p.check(TokenIf):
